@@ -409,8 +409,23 @@ func init() {
 			}
 			ts = append(ts, i.lift(seed))
 			nm := fmt.Sprintf("H%d", len(bs))
-			r := i.tb.UF(nm, smt.BV(64), ts...)
+			var r *smt.Term
+			if w := wordOfBytes(ts[:len(bs)]); w != nil {
+				// the 8 bytes are the little-endian image of one 64-bit term: give the
+				// solver a function of the word (equivalent, far easier congruence reasoning)
+				r = i.tb.UF(nm+"w", smt.BV(64), w, ts[len(bs)])
+			} else {
+				r = i.tb.UF(nm, smt.BV(64), ts...)
+			}
 			i.ps.ufApps = append(i.ps.ufApps, ufApp{Name: nm, Args: ts, Res: r})
+			if i.ps.hashBits > 0 {
+				low := i.tb.Extract(r, i.ps.hashBits-1, 0)
+				var alts []*smt.Term
+				for _, a := range i.ps.hashAllowed {
+					alts = append(alts, i.tb.Eq(low, i.tb.BVConst(a, i.ps.hashBits)))
+				}
+				i.sol.Assert(i.tb.Or(alts...))
+			}
 			return i.mk(r, types.Uint64)
 		},
 		"math/rand.Uint64": func(i *interpreter, fr *frame, a []value) value { return i.freshEnv(types.Uint64) },
@@ -686,4 +701,23 @@ func (i *interpreter) freshEnv(k types.BasicKind) value {
 		return concreteOfKind(k, uint64(i.envCount)*0x9e3779b97f4a7c15&maskOf(k))
 	}
 	return i.mk(i.tb.Var("env", smt.BV(kindWidth(k))), k)
+}
+
+// wordOfBytes returns t if bs are exactly extract(7,0), extract(15,8), ... of one 64-bit term t.
+func wordOfBytes(bs []*smt.Term) *smt.Term {
+	if len(bs) != 8 {
+		return nil
+	}
+	var w *smt.Term
+	for k, b := range bs {
+		if b.Op != smt.OExtract || b.I != 8*k+7 || b.J != 8*k || b.Args[0].Sort.W != 64 {
+			return nil
+		}
+		if w == nil {
+			w = b.Args[0]
+		} else if w != b.Args[0] {
+			return nil
+		}
+	}
+	return w
 }
